@@ -34,7 +34,7 @@ fn value_tag(v: &Value) -> (&'static str, bool, usize) {
 }
 
 pub struct Schema { pub names: Vec<String>, pub types: Vec<String>, pub dims: Vec<Vec<String>>, pub events: Vec<Option<String>> }
-pub struct Row { pub cells: Vec<(String, Option<(String, bool, usize)>)>, pub diverging: bool, pub upd_id: Option<i64>, pub draw: u64, pub chain: u64, pub has_div_start: bool, pub has_div_end: bool, pub has_div_ee: bool, pub num_eig: Option<u64> }
+pub struct Row { pub cells: Vec<(String, Option<(String, bool, usize)>)>, pub diverging: bool, pub progress_diverging: bool, pub upd_id: Option<i64>, pub draw: u64, pub chain: u64, pub has_div_start: bool, pub has_div_end: bool, pub has_div_ee: bool, pub num_eig: Option<u64> }
 pub struct Run { pub schema: Schema, pub rows: Vec<Row>, pub error: Option<String> }
 
 pub fn run(cfg: &Cfg) -> Run {
@@ -43,6 +43,7 @@ pub fn run(cfg: &Cfg) -> Run {
             let settings = $settings;
             let mut target = if cfg.dim == 0 { Target::iso(0, 0.0, 1.0) } else { Target::new(Kind::Diag { mu: vec![0.0; cfg.dim], sigma: (0..cfg.dim).map(|i| 1.0 + i as f64).collect() }, cfg.dim) };
             if cfg.fault_period > 0 { target.periodic = Some((cfg.fault_period, if cfg.fault_kind == 0 { FaultKind::Recoverable } else { FaultKind::NanLogp })); }
+            let fail_next = target.fail_next.clone();
             let math = CpuMath::new(target);
             let schema = {
                 let names = settings.stat_names(&math);
@@ -57,13 +58,18 @@ pub fn run(cfg: &Cfg) -> Run {
                 let mut rows = vec![];
                 let mut chain = settings.new_chain(3, math, &mut rng);
                 if let Err(e) = chain.set_position(&vec![0.1; cfg.dim]) { return (rows, Some(format!("set_position: {e}"))); }
-                for _ in 0..(cfg.num_tune + cfg.num_draws) {
-                    match chain.expanded_draw() {
+                for d in 0..(cfg.num_tune + cfg.num_draws) {
+                    // in the runs with faults every sixth draw is forced to diverge (every evaluation fails): MCLMC absorbs isolated faults by
+                    // retrying, so divergent MCLMC draws would not occur otherwise
+                    fail_next.store(if cfg.fault_period > 0 && d % 6 == 5 { u64::MAX / 2 } else { 0 }, std::sync::atomic::Ordering::SeqCst);
+                    let res = chain.expanded_draw();
+                    fail_next.store(0, std::sync::atomic::Ordering::SeqCst);
+                    match res {
                         Err(e) => return (rows, Some(format!("draw: {e}"))),
                         Ok((_p, _e, mut stats, _progress)) => {
                             let dims = { let m = chain.math(); StatsDims::from(&*m) };
                             let all = stats.get_all(&dims);
-                            let mut row = Row { cells: vec![], diverging: false, upd_id: None, draw: 0, chain: 0, has_div_start: false, has_div_end: false, has_div_ee: false, num_eig: None };
+                            let mut row = Row { cells: vec![], diverging: false, progress_diverging: _progress.diverging, upd_id: None, draw: 0, chain: 0, has_div_start: false, has_div_end: false, has_div_ee: false, num_eig: None };
                             for (n, v) in all {
                                 match (n, &v) {
                                     ("diverging", Some(Value::ScalarBool(b))) => row.diverging = *b,
@@ -137,6 +143,7 @@ pub fn oracle(cfg: &Cfg, run: &Run) -> Vec<(String, String)> {
                 out.push(("schema.option_presence".into(), format!("draw {k}: statistic {name} present = {} but its store option is {} (preset {})", present(name), if on { "on" } else { "off" }, cfg.preset)));
             }
         }
+        if row.diverging != row.progress_diverging { out.push(("schema.diverging_flag".into(), format!("draw {k}: the `diverging` statistic is {} but the chain reported the draw as {} (Progress.diverging)", row.diverging, if row.progress_diverging { "divergent" } else { "not divergent" }))); }
         if row.diverging != present("divergence_draw") || row.diverging != present("divergence_message") { out.push(("schema.event".into(), format!("draw {k}: diverging={} but divergence_draw/message presence {}/{}", row.diverging, present("divergence_draw"), present("divergence_message")))); }
         if let Some(p) = prev_draw { if row.draw != p + 1 { out.push(("schema.draw_counter".into(), format!("draw statistic went {p} -> {}", row.draw))); } }
         prev_draw = Some(row.draw);
